@@ -23,11 +23,18 @@ MANIFEST = {
             "order; sticky components keep their value until the next qualifying event, non-sticky ones return to zero; totals are "
             "sums of step rewards at every point of an episode, restart at 0 after a reset, and are 0 for agents without components; "
             "the weighted-sum law holds over any commutative ring, and in any arithmetic with relative rounding error u the code's "
-            "left-to-right loop stays within ((1+u)^(n+1)-1)*sum|w*c| of it (abstract rounding function). "
+            "left-to-right loop stays within ((1+u)^(n+1)-1)*sum|w*c| of it (abstract rounding function). Ground truth: a model of "
+            "the simulator objects a component can reach and of the describe_state() methods that turn them into the dictionary; for "
+            "each component which live object its leaf is and which of its attributes decides the value (database file: the live File's "
+            "health_status at the end of the step, deleted files 0; web server: the responses of this step; browser: the last history "
+            "item). Unregistered or ill-formed component types are refused at load; a reset under an episode schedule is a fresh load "
+            "of that episode's configuration; the green component's reward_info write. "
             "Tie: Gen/Reward.lean regenerated from rewards.py / game.py / science.py / utils.py / interface.py on every run — the body "
             "of each calculate is TRANSLATED statement by statement into a small imperative language and proved, for all inputs, to "
             "compute what the component model computes (semantic tie: a meaning-preserving refactoring passes, a change of meaning "
-            "refutes the theorem); literal defaults; blunt text flags for the hand-transcribed functions. Differential rig R-rew "
+            "refutes the theorem); access_from_nested_dict is translated the same way (recursion included) and proved equal to the "
+            "model's look-up for every value and key list; literal defaults; blunt text flags for the remaining hand-transcribed "
+            "functions. Differential rig R-rew "
             "through the real PrimaiteGame.from_config (every sharing graph on <= 4 agents; several shares per agent; cycles of every "
             "length incl. self-sharing), the real science.py functions on EVERY graph with <= 4 nodes incl. self-loops and repeated "
             "neighbours (thorough: every loop-free graph on 5 nodes), real update_agents on synthetic state dictionaries (also leaves "
@@ -36,20 +43,27 @@ MANIFEST = {
             "PrimaiteGame runs with resets on the shipped and on generated scenarios. Python oracles on the implementation alone: "
             "declared sharing graph, cycle <=> rejected, same-step shared values, weighted sum, totals per episode, and a "
             "non-interference recheck (each calculate re-run on a copy with the state cut down to its own leaf and the item fields "
-            "outside its proved read-set scrambled).",
+            "outside its proved read-set scrambled), and a LIVE-OBJECT oracle: after every real step each component's value is "
+            "recomputed from the live simulator objects (never through describe_state()), with an independent record of the HTTP "
+            "responses each web server sent in the step; the model evaluates every component on describeT(live objects) and on the real "
+            "dictionary and must agree (truthcheck). Named shapes (diamond, triangle, fan, chain) in every key / neighbour order, every "
+            "acyclic graph on <= 4 nodes in every key order, and through from_config every diamond / triangle on 4 agents in all 24 "
+            "declaration orders; shipped episode schedules (another configuration per episode).",
     "note": "C10-specific: the theorems are about exact rational arithmetic (weighted sum: any commutative ring). The rig compares "
             "exactly where float arithmetic is exact (dyadic families) and otherwise (decimal weights such as 0.4 / 0.05, shipped "
             "scenarios as they are) gives the model the exact value of every double and requires the implementation's floats to lie "
             "within the accumulated forward rounding bound whose per-sum factor is the one proved in Lemmas/RewardRounding.lean; that "
             "CPython floats are a rounding function with u = 2^-53 (IEEE-754, no overflow/underflow) is assumed, not proved. How "
-            "describe_state() PRODUCES the dictionary from the simulator objects is not modelled (the dictionary is the model's "
-            "input); for large real dictionaries the rig sends their projection on the components' own key paths, which is proved "
+            "describe_state() produces the dictionary is modelled only for the objects and keys a reward component can reach "
+            "(Model/RewardTruth.lean) and tied by the live-object oracle and truthcheck on real runs, not by a translation of those "
+            "methods; how the simulator UPDATES those objects during a step is not part of C10; for large real dictionaries the rig sends their projection on the components' own key paths, which is proved "
             "invisible to access_from_nested_dict on those paths.",
     "technique": "Lean 4 theorems over executable models of the graph functions and the reward layer; components tied by a "
                  "source-to-AST translation proved equivalent to the models; model tied by regenerated tables and a differential rig",
     "design_ref": "5/C10",
 }
-MODULES = ["PrimaiteModel.Props.C10", "PrimaiteModel.Props.C10Calc", "PrimaiteModel.Props.C10Total", "PrimaiteModel.Props.C10Float"]
+MODULES = ["PrimaiteModel.Props.C10", "PrimaiteModel.Props.C10Calc", "PrimaiteModel.Props.C10Total", "PrimaiteModel.Props.C10Float",
+           "PrimaiteModel.Props.C10Truth"]
 EXE = "drv_c10"
 
 
@@ -222,11 +236,22 @@ def _graph_case(keys: List[str], nbrs: Dict[str, List[str]]) -> dict:
 def _exhaustive_graphs(ctx: Ctx, rng: Rng):
     """Bounded-exhaustive family for science.graph_has_cycle / topological_sort against the proved model, generated lazily as
     (family name, keys in dict order, neighbour lists):
-    * EVERY directed graph on n <= 4 nodes, self-loops included (2^(n*n) arc sets; n = 4: 65 536), keys in a random order,
-      each neighbour collection in a random order;
+    * the named shapes diamond / triangle / fan / chain in every key order and neighbour order;
+    * EVERY directed graph on n <= 4 nodes, self-loops included (2^(n*n) arc sets; n = 4: 65 536): the acyclic ones (543 on 4
+      nodes) in EVERY key order, the cyclic ones with keys in a random order; neighbour collections in a random order;
     * EVERY graph on n <= 3 nodes whose neighbour collections are lists of length <= 2 with repetition (duplicate edges), in every
       key order; for n = 4 lists of length <= 3 with repetition, sampled;
     * thorough: every loop-free graph on 5 nodes (2^20), a quarter of them also with a random non-empty set of self-loops."""
+    # named shapes first (so that a defect they expose is reported on them): the DIAMOND top -> {left, right} -> bottom, the
+    # triangle, the fan and the chain, in every key order and every neighbour order
+    shapes = {"diamond": {"top": ["left", "right"], "left": ["bottom"], "right": ["bottom"], "bottom": []},
+              "triangle": {"top": ["mid", "leaf"], "mid": ["leaf"], "leaf": []},
+              "fan": {"top": ["a", "b", "c"], "a": [], "b": [], "c": []},
+              "chain": {"a": ["b"], "b": ["c"], "c": ["d"], "d": []}}
+    for sname, g in shapes.items():
+        for keys in itertools.permutations(list(g)):
+            for nbo in itertools.product(*[list(itertools.permutations(g[k])) for k in g]):
+                yield f"graph-shape:{sname}", list(keys), {k: list(v) for k, v in zip(g, nbo)}
     for n in range(0, 5):
         names = [f"n{i}" for i in range(n)]
         pairs = [(u, v) for u in names for v in names]
@@ -237,7 +262,12 @@ def _exhaustive_graphs(ctx: Ctx, rng: Rng):
                     nb[u].append(v)
             if n >= 3:
                 nb = {u: rng.shuffle(vs) for u, vs in nb.items()}
-            yield f"graph-exh{n}", (rng.shuffle(names) if n >= 2 else names), nb
+            if n >= 2 and not rig.has_cycle_ref(nb):
+                # acyclic: the answer IS an order, and it depends on the key (= declaration) order: every key order
+                for keys in itertools.permutations(names):
+                    yield f"graph-exh{n}-dag-allorders", list(keys), nb
+            else:
+                yield f"graph-exh{n}", (rng.shuffle(names) if n >= 2 else names), nb
     # duplicate edges: all neighbour LISTS of length <= 2 (with repetition)
     for n in (1, 2, 3):
         names = [f"n{i}" for i in range(n)]
@@ -345,6 +375,16 @@ def _run_graph_bulk(ctx: Ctx, gen) -> None:
                f"{total - agree} of {total} graphs disagree")
 
 
+def _reconvergent(g: Dict[int, List[int]]) -> bool:
+    """Some node is reached from some node along two different paths (acyclic graph): number of paths u ~> v >= 2."""
+    import functools
+
+    @functools.lru_cache(maxsize=None)
+    def paths(u: int, v: int) -> int:
+        return 1 if u == v else sum(paths(w, v) for w in g[u])
+    return any(paths(u, v) >= 2 for u in g for v in g if u != v)
+
+
 def _cycle_config_case(rng: Rng) -> dict:
     """A configuration whose sharing graph has a cycle of a chosen length (1 = an agent sharing its own reward, 2 = mutual
     sharing, ... up to all agents), hidden among acyclic arcs, the cycle's arcs anywhere among the agents' components."""
@@ -411,8 +451,27 @@ def _families(ctx: Ctx) -> List[Tuple[str, dict]]:
     # every sharing graph on 4 agents without self-loops: quick = one random declaration order each, thorough = all 24
     perms4 = list(itertools.permutations(range(4)))
     for arcs in rig.all_arc_sets(4, self_loops=False):
-        for p in (perms4 if ctx.thorough else [rng.choice(perms4)]):
-            cases.append(("exh4", rig.gen_game_case(rng, 4, arcs, list(p), n_steps=1)))
+        g4 = {u: [v for (x, v) in arcs if x == u] for u in range(4)}
+        acyclic = not rig.has_cycle_ref(g4)
+        # an accepted (acyclic) graph is evaluated in an order that depends on the declaration order. Graphs in which some agent is
+        # reached along two different paths (where a pre-order / reversed-discovery order goes wrong): those with <= 4 arcs (every
+        # diamond, every triangle, triangle + one arc) are loaded in ALL 24 declaration orders, the denser ones in 8 (each agent
+        # declared first at least once); the other acyclic ones in 5; a cyclic one is rejected whatever the order: one random order
+        # in quick. thorough: all 24 for every graph. (The raw-graph family has EVERY key order of EVERY acyclic graph <= 4 nodes.)
+        stepped = rng.choice(perms4)  # quick: one declaration order per graph is also stepped (stale values); the others are loaded
+        if ctx.thorough:
+            ps, fam = perms4, ("exh4-dag-allorders" if acyclic else "exh4")
+        elif acyclic and _reconvergent(g4) and len(arcs) <= 4:
+            ps, fam = perms4, "exh4-reconvergent-allorders"   # the diamonds, the triangles, a triangle plus one arc
+        elif acyclic and _reconvergent(g4):
+            ps = [stepped] + [rng.choice([p for p in perms4 if p[0] == f]) for f in range(4)] + [rng.choice(perms4) for _ in range(3)]
+            fam = "exh4-reconvergent-8orders"
+        elif acyclic:
+            ps, fam = [stepped] + [rng.choice([p for p in perms4 if p[0] == f]) for f in range(4)], "exh4-dag-each-first"
+        else:
+            ps, fam = [stepped], "exh4"
+        for p in ps:
+            cases.append((fam, rig.gen_game_case(rng, 4, arcs, list(p), n_steps=1 if (ctx.thorough or p == stepped) else 0)))
     # cycles of every length through from_config: self-sharing, mutual sharing, long cycles (must raise at load)
     for k in range(ctx.scale(400, 6000)):
         cases.append(("cyclecfg", _cycle_config_case(rng)))
@@ -441,17 +500,24 @@ def _families(ctx: Ctx) -> List[Tuple[str, dict]]:
         cases.append(("badleaf", rig.gen_game_case(rng, n, arcs, rng.shuffle(list(range(n))), n_steps=rng.range(1, 6), rich=True,
                                                    bad_leaves=True)))
     # several episodes: resets inside the run (totals restart at 0), agents without reward components / without reward_function
-    for k in range(ctx.scale(250, 5000)):
+    for k in range(ctx.scale(200, 5000)):
         n = rng.range(1, 4)
         lab = rng.shuffle(list(range(n)))
         arcs = [(lab[u], lab[v]) for u in range(n) for v in range(n) if u < v and rng.chance(1, 2)]
         cases.append(("episodes", rig.gen_game_case(rng, n, arcs, rng.shuffle(list(range(n))), n_steps=rng.range(3, 14), rich=rng.chance(1, 2),
                                                     resets=True, bare_agents=True, decimal=rng.chance(1, 4))))
     # malformed stream: a shared-reward naming an agent that does not exist, duplicate refs
-    for k in range(ctx.scale(40, 400)):
+    for k in range(ctx.scale(90, 900)):
         n = rng.range(1, 3)
         arcs = [(u, v) for u in range(n) for v in range(n + 1) if u != v and rng.chance(1, 3)]  # v == n is a ghost
         c = rig.gen_game_case(rng, n, arcs, None, n_steps=1)
+        if rng.chance(1, 3):  # an unregistered component type / an entry that violates its schema, anywhere: refused at load
+            a = rng.choice(c["agents"])
+            bad = {"kind": "unknown", "weight": "1", "type": rng.choice(["no-such-reward", "shared_reward", "Dummy", "my-plugin-reward", ""])} \
+                if rng.chance(1, 2) else {"kind": "invalid", "weight": "1", "variant": rng.choice(rig.INVALID_VARIANTS)}
+            a["comps"].insert(rng.below(len(a["comps"]) + 1), bad)
+            if rng.chance(1, 4):
+                rng.choice(c["agents"])["comps"].append({"kind": "invalid", "weight": "1", "variant": rng.choice(rig.INVALID_VARIANTS)})
         if rng.chance(1, 2) and n >= 2:
             c["agents"][1]["ref"] = c["agents"][0]["ref"]  # duplicate ref: later agent replaces the earlier one
             for s in c["steps"]:
@@ -460,11 +526,11 @@ def _families(ctx: Ctx) -> List[Tuple[str, dict]]:
     # agents with TWO OR MORE shared-reward components (also two components naming the same agent), the shares shuffled among
     # the agent's other components; acyclic, or cyclic through a share chosen at random among the hub's shares; several steps with
     # changing rewards, so that a dependency evaluated too late shows as a stale value
-    for k in range(ctx.scale(400, 8000)):
+    for k in range(ctx.scale(300, 8000)):
         cases.append(("multishare", _multishare_case(rng, decimal=False)))
     # decimal literals (0.4, 0.05, 0.33 ...), code lists of any length: the model computes on the exact values of the doubles,
     # the implementation's floats must lie within the accumulated rounding bound
-    for k in range(ctx.scale(250, 5000)):
+    for k in range(ctx.scale(200, 5000)):
         if rng.chance(1, 3):
             cases.append(("decimal", _multishare_case(rng, decimal=True)))
         else:
@@ -481,8 +547,13 @@ def _families(ctx: Ctx) -> List[Tuple[str, dict]]:
     cases.append(("env-asis", rig.gen_env_case(rng, ctx.scale(40, 128), "uc2", "asis")))
     shipped = list(rig.ENV_SHIPPED)
     for stem in (shipped if ctx.thorough else shipped[:3] + rng.shuffle(shipped[3:])[:4]):
-        for mode in (("asis", "dyadic") if ctx.thorough or stem.startswith("uc7") else (rng.choice(["asis", "dyadic"]),)):
+        for mode in (("asis", "dyadic") if ctx.thorough or stem == "uc7_config" else (rng.choice(["asis", "dyadic"]),)):
             cases.append(("env-shipped", rig.gen_env_case(rng, ctx.scale(24, 96), "shipped:" + stem, mode)))
+    # shipped episode SCHEDULES: every reset builds the next episode from another configuration (real EpisodeListScheduler)
+    for sd in (rig.ENV_SCHEDULES if ctx.thorough else rig.ENV_SCHEDULES[:2]):
+        c = rig.gen_env_case(rng, ctx.scale(12, 40), "sched:" + sd, "asis")
+        c["reset_at"] = sorted({3, 7, ctx.scale(10, 25)})
+        cases.append(("env-schedule", c))
     from harness.gen.scenario import FAMILIES as GEN_FAMILIES
     for k in range(ctx.scale(4, 40)):
         cases.append(("env-gen", rig.gen_env_case(rng, ctx.scale(24, 64), f"gen:{rng.choice(list(GEN_FAMILIES))}:{rng.range(1, 3)}",
@@ -577,6 +648,8 @@ def run(ctx: Ctx):
             _share_coverage(ctx, case)
             ctx.count("compare:" + ("exact" if case.get("exact", True) else "within-rounding-bound"))
             ctx.count("noninterference-rechecks(calculate re-run on own leaf + own read fields only)", capture.get("rechecked", 0))
+            ctx.count("live-object oracle(component value recomputed from the live simulator objects)", capture.get("live_checked", 0))
+            ctx.count("truthcheck(model: components on describeT(live objects) = on the real dictionary)", sum(1 for kd in kinds if kd == "truthcheck"))
             kindset = {rig_kind for a in case["agents"] for rig_kind in (_comp_tag(c) for c in a["comps"])}
             for kd in kindset:
                 ctx.count("comp:" + kd)
